@@ -154,7 +154,7 @@ def is_const(sv):
 class Run:
     """partition of the domain of one function under one configuration"""
 
-    def __init__(self, F, key, body, env, extra=(), cfg=None, arg_ty="u64", receiver=False, hi=U64MAX, refine_const=False, lo=0):
+    def __init__(self, F, key, body, env, extra=(), cfg=None, arg_ty="u64", receiver=False, hi=U64MAX, refine_const=False, lo=0, inp=(1, 0)):
         self.key = key
         self.F = F
         hs = handlers()
@@ -162,7 +162,7 @@ class Run:
         def run(it):
             it.handlers = hs
             it.cfg = cfg or {}
-            args = ([STREAM] if receiver is True else []) + [it.input(arg_ty)] + [it.const(t, v) for t, v in extra] + ([STREAM] if receiver == "io" else [])
+            args = ([STREAM] if receiver is True else []) + [it.input(arg_ty, inp[0], inp[1])] + [it.const(t, v) for t, v in extra] + ([STREAM] if receiver == "io" else [])
             return it.call_body(body, args, dict(env), 0)
 
         refine = None
@@ -624,7 +624,7 @@ def compare_fields(code, en, params, c, y0, y1, depth=0):
     return [], 1
 
 
-def replay_reader(F, body, env, extra, c):
+def replay_reader(F, body, env, extra, c, expect=(1, 0)):
     """interpret the reader on the cell, feeding it the primitives the writer emitted there; returns a problem or None"""
     it = ivl.Interp(F, c.y0, c.y1)
     queue = list(c.events)
@@ -669,8 +669,9 @@ def replay_reader(F, body, env, extra, c):
     if queue:
         return "for n in [%d, %d] the reader leaves %d emitted primitives unread (%s)" % (c.y0, c.y1, len(queue), fmt_ev(queue[0]))
     v = r.fields[0] if isinstance(r, Agg) and r.variant == "Ok" else r
-    if not (isinstance(v, AI) and v.aff is not None and v.dir is not None and tuple(v.aff) == (1, 0)) and not (isinstance(v, AI) and c.y0 == c.y1 and v.const() == c.y0):
-        return "for n in [%d, %d] the reader returns %r, not n" % (c.y0, c.y1, v)
+    if not (isinstance(v, AI) and v.aff is not None and v.dir is not None and tuple(v.aff) == tuple(expect)) and \
+            not (isinstance(v, AI) and c.y0 == c.y1 and v.const() == expect[0] * c.y0 + expect[1]):
+        return "for the cell [%d, %d] the reader returns %r, not the value written (%d*y + %d)" % (c.y0, c.y1, v, expect[0], expect[1])
     return None
 
 
@@ -759,3 +760,135 @@ def run_c03_roundtrip(chk, F, fs, tier):
         ok = not r["reader_problems"] and r["replays"] > 0 and not r["domain"]
         chk.expect("K2.replay", key, ok, "%s: %s" % (key, "; ".join(r["reader_problems"]) or r["domain"] or "no cell replayed"),
                    sample={"code": key, "cells_replayed": r["replays"]})
+
+
+# ---- Golomb (and Rice, for Kraft): residue classes n = b*y + r ----------------------------------------------------------------------
+def golomb_params(tier):
+    return [1, 2, 3, 5, 6, 7, 8, 9, 10, 12, 16, 17, 31, 33, 64] + ([4, 11, 13, 15, 20, 24, 32, 48, 63, 100, 127, 128, 129, 255, 1000] if tier == "thorough" else [])
+
+
+def _work_golomb(job):
+    fs, b = job
+    F = _F[fs]
+    import refspec
+    out = {"b": b, "len": [], "problems": [], "checked": 0, "replays": 0, "fields": 0}
+    lbody = F.body("codes::golomb::len_golomb")
+    wbody = F.body("codes::golomb::GolombWrite::write_golomb")
+    rbody = F.body("codes::golomb::GolombRead::read_golomb")
+    try:
+        for r in range(b):
+            ymax = (U64MAX - 1 - r) // b
+            lr = Run(F, "len", lbody, {}, (("u64", b),), {}, hi=ymax, inp=(b, r))
+            cl = [c for c in lr.cells if c.status == "ok"]
+            if len(cl) != len(lr.cells) or not cl:
+                out["problems"].append("len_golomb(n, %d) is not defined for every n = %d*y + %d <= 2^64-2: %s" % (b, b, r, [c for c in lr.cells if c.status != "ok"][:1]))
+                continue
+            v = lr.value(cl[0])
+            if len(cl) != 1 or not (isinstance(v, AI) and v.aff is not None and v.dir is not None):
+                out["problems"].append("len_golomb(%d*y + %d, %d) is not one affine function of y: %r" % (b, r, b, [lr.value(c) for c in cl][:3]))
+                continue
+            out["len"].append(tuple(v.aff))
+            for e in (BE, LE):
+                en = "be" if e == BE else "le"
+                wr = Run(F, "w", wbody, {"E": e}, (("u64", b),), {}, receiver=True, hi=ymax, inp=(b, r))
+                for c in wr.cells:
+                    if c.status != "ok":
+                        out["problems"].append("write_golomb(%d*y + %d, %d) fails on y in [%d, %d]: %s" % (b, r, b, c.y0, c.y1, c.why))
+                        continue
+                    wv = wr.value(c)
+                    out["checked"] += 1
+                    if not (isinstance(wv, AI) and wv.aff is not None and wv.dir is not None and tuple(wv.aff) == tuple(v.aff)):
+                        out["problems"].append("write_golomb(%d*y + %d, %d) returns %r; len_golomb is %s*y + %s" % (b, r, b, wv, v.aff[0], v.aff[1]))
+                    # emitted widths = returned count
+                    lo = hi = None
+                    tot = AI("u128", 0, 0)
+                    it = ivl.Interp(F, c.y0, c.y1)
+                    bad = False
+                    for ev in c.events:
+                        if ev[0] == "unary":
+                            tot = it.arith("Add", tot, it.arith("Add", it.cast(ev[1], "u128"), AI("u128", 1, 1), "u128"), "u128")
+                        elif ev[0] == "bits":
+                            tot = it.arith("Add", tot, it.cast(ev[2], "u128"), "u128")
+                    if not (tot.aff is not None and tot.dir is not None and tuple(tot.aff) == tuple(v.aff)):
+                        out["problems"].append("write_golomb(%d*y + %d, %d) emits %r bits and returns %s" % (b, r, b, tot, v.aff))
+                    # documented fields: unary(n / b) then the minimal binary code of n % b with bound b
+                    want = [("U", ("aff", 1, 0))] + [f if f[0] == "U" else ("B", ("aff", 0, refspec.value_at(f[1], r) & ((1 << f[2]) - 1)), f[2])
+                                                    for f in refspec.fields("minimal_binary", en, (b,), r, r)]
+                    evs = c.events
+                    okf = len(evs) == len(want)
+                    if okf:
+                        u = evs[0]
+                        okf = u[0] == "unary" and u[1].aff is not None and u[1].dir is not None and tuple(u[1].aff) == (1, 0)
+                        for ev, f in zip(evs[1:], want[1:]):
+                            okf = okf and ev[0] == "bits" and ev[2].const() == f[2] and (f[2] == 0 or (ev[1].const() is not None and (ev[1].const() - f[1][2]) % (1 << f[2]) == 0))
+                    out["fields"] += 1
+                    if not okf:
+                        out["problems"].append("write_golomb(%d*y + %d, %d) [%s] emits %s; documented: unary(y) then %s" % (b, r, b, en, [fmt_ev(x) for x in evs], want[1:]))
+                    p = replay_reader(F, rbody, {"E": e}, (("u64", b),), c, expect=(b, r))
+                    if p:
+                        out["problems"].append("read_golomb(b=%d) on the writer's emissions for n = %d*y + %d: %s" % (b, b, r, p))
+                    else:
+                        out["replays"] += 1
+    except Unsupported as ex:
+        out["problems"].append("cannot be evaluated: %s" % ex)
+    except Exception as ex:
+        out["problems"].append("internal error %r" % (ex,))
+    out["problems"] = out["problems"][:3]
+    return b, out
+
+
+_gcache = {}
+
+
+def evaluate_golomb(F, fs, tier):
+    import multiprocessing as mp
+    _F[fs] = F
+    bs = golomb_params(tier)
+    todo = [(fs, b) for b in bs if (fs, b) not in _gcache]
+    if todo:
+        with mp.get_context("fork").Pool(min(16, len(todo))) as pool:
+            for b, res in pool.imap_unordered(_work_golomb, todo, chunksize=1):
+                _gcache[(fs, b)] = res
+    return [(b, _gcache[(fs, b)]) for b in bs]
+
+
+def run_golomb(chk, F, fs, tier, pid):
+    """rules for Golomb codes from the residue-class analysis; which ones are reported depends on the property asking"""
+    res = evaluate_golomb(F, fs, tier)
+    sfx = "" if fs == "default" else "@" + fs
+    if pid == "C06":
+        chk.rule("L4.golomb", floor=15, doc="Golomb_b, b enumerated, every n <= 2^64-2 by residue classes n = b*y + r: len_golomb, the writer's return and the sum of emitted widths are the same affine function of y on every class, both endiannesses")
+        for b, r in res:
+            pr = [p for p in r["problems"] if "returns" in p or "emits" in p and "bits and returns" in p or "not defined" in p or "fails" in p or "affine" in p or "evaluated" in p or "internal" in p]
+            chk.expect("L4.golomb", "b=%d%s" % (b, sfx), not pr and r["checked"] > 0, "Golomb b=%d: %s" % (b, "; ".join(pr)), sample={"b": b, "classes": len(r["len"]), "cells": r["checked"]})
+    if pid == "C20":
+        chk.rule("F2.golomb", floor=15, doc="len_golomb(n, b) is non-decreasing in n over the whole domain: on each residue class it is y + c_r, with c_r <= c_(r+1) and c_(b-1) <= c_0 + 1; Kraft: sum_r 2^(1 - c_r) <= 1 (geometric series over y), b enumerated")
+        for b, r in res:
+            cs = r["len"]
+            ok = len(cs) == b and all(a == 1 for a, _ in cs)
+            why = None
+            if not ok:
+                why = "; ".join(r["problems"]) or "classes missing"
+            else:
+                c = [x[1] for x in cs]
+                for i in range(b - 1):
+                    if c[i] > c[i + 1]:
+                        ok, why = False, "len_golomb(%d*y + %d) = y + %d > len_golomb(%d*y + %d) = y + %d" % (b, i, c[i], b, i + 1, c[i + 1])
+                        break
+                if ok and c[b - 1] > c[0] + 1:
+                    ok, why = False, "len_golomb drops from y + %d at residue %d to y + 1 + %d at the next multiple of %d" % (c[b - 1], b - 1, c[0], b)
+                if ok:
+                    tot = sum(Fraction(2, 1 << ci) for ci in c)
+                    if tot > 1:
+                        ok, why = False, "Kraft bound sum_r 2^(1-c_r) = %s > 1" % tot
+            chk.expect("F2.golomb", "b=%d%s" % (b, sfx), ok, "Golomb b=%d: %s" % (b, why), sample={"b": b, "offsets": [x[1] for x in cs][:8]})
+    if pid == "C04":
+        chk.rule("D3.golomb", floor=15, doc="Golomb_b on every residue class: the writer emits unary(n / b) followed by exactly the documented minimal binary code of n % b with bound b (constant fields per class), both endiannesses")
+        for b, r in res:
+            pr = [p for p in r["problems"] if "documented" in p or "evaluated" in p or "internal" in p or "fails" in p]
+            chk.expect("D3.golomb", "b=%d%s" % (b, sfx), not pr and r["fields"] > 0, "Golomb b=%d: %s" % (b, "; ".join(pr)), sample={"b": b, "cells": r["fields"]})
+    if pid == "C03":
+        chk.rule("K2.golomb", floor=15, doc="Golomb_b replay on every residue class: read_golomb interpreted on the writer's emissions returns b*y + r, i.e. the value written, both endiannesses")
+        for b, r in res:
+            pr = [p for p in r["problems"] if "read_golomb" in p or "evaluated" in p or "internal" in p or "fails" in p]
+            chk.expect("K2.golomb", "b=%d%s" % (b, sfx), not pr and r["replays"] > 0, "Golomb b=%d: %s" % (b, "; ".join(pr)), sample={"b": b, "cells": r["replays"]})
